@@ -1,4 +1,4 @@
-CLAIMED = ["C16"]
+CLAIMED = ["C09", "C16"]
 
 SETUP = "./setup.sh"
 
